@@ -30,6 +30,10 @@ def trace_cfgs(quick):
         {'name': 'euler-1phase-long-remesh', 'phases': ('B1',), 'iterator': 'euler', 'segments': [2e5, 3e5], 'bins': (1e-10, 2e-9, 60, 40, 80)},
         {'name': 'euler-2phase-split', 'phases': ('B1', 'B2'), 'gammas': [0.15, 0.12], 'iterator': 'euler', 'segments': [300.0, 1500.0]},
         {'name': 'rk4-1phase', 'phases': ('B1',), 'iterator': 'rk4', 'segments': [40.0]},
+        # fixed grid (adaptive=False): the grid must still gain classes when the last one fills
+        {'name': 'euler-fixedgrid-small', 'phases': ('B1',), 'iterator': 'euler', 'segments': [1500.0], 'adaptive': False, 'bins': (1e-10, 1e-9, 40, 20, 60)},
+        # a populated phase listed before a phase that never nucleates
+        {'name': 'euler-populated-then-empty', 'phases': ('B1', 'B3'), 'gammas': [0.15, 0.9], 'iterator': 'euler', 'segments': [1500.0]},
         {'name': 'euler-grain-boundary', 'phases': ('B1',), 'iterator': 'euler', 'segments': [2e3], 'site': 'grain boundaries', 'gamma': 0.22},
         {'name': 'euler-grain-corner-edge', 'phases': ('B1', 'B2'), 'gammas': [0.25, 0.2], 'sites': ['grain corners', 'grain edges'], 'iterator': 'euler', 'segments': [2e3]},
         {'name': 'euler-heat-dissolve', 'phases': ('B1',), 'iterator': 'euler', 'segments': [3e3, 4e3], 'T': ([0, 0.8, 1.2, 2.0], [700.0, 700.0, 900.0, 900.0])},
@@ -126,6 +130,17 @@ def oracle_trace(tr, tol=1e-9):
                             fm = min(k * float(np.sum(psd * r ** 3)), 1.0)
                             if abs(frec - fm) > 1e-6 * fm + k * nb * r[-1] ** 3:
                                 v.append(('stats_are_moments', 'volume fraction', 'step %d of run %s, phase %d: recorded volume fraction %r, scaled third moment %r' % (n, name, p, frec, fm), si))
+            # (iii) nothing may leave through the upper end of the grid beyond the one particle the last class
+            #       may hold before the grid is extended (the density changes only by nucleation and by
+            #       dissolution through the smallest class)
+            if bef['growth'] is not None and len(bef['growth'][p]) == bef['bins'][p] + 1 and euler:
+                Xg = split(it['X'], bef['bins'])[p]
+                gtop = float(bef['growth'][p][-1])
+                wtop = bef['bounds'][p][-1] - bef['bounds'][p][-2]
+                out_top = min(max(gtop, 0.0) * float(Xg[-1]) / wtop * dt, float(Xg[-1]))
+                if out_top > 1.0 + 1e-9 * max(1.0, float(np.sum(Xg))):
+                    v.append(('density_step_bound', 'loss through the upper end of the grid',
+                              'step %d of run %s, phase %d: %.3e particles leave through the largest size class (it holds %.3e; the grid was not extended)' % (n, name, p, out_top, float(Xg[-1])), si))
             # (ii) density change <= nucleation rate in force * step
             if rate is not None and np.isfinite(Nrec) and np.isfinite(Nprev):
                 bound = Nprev + dt * float(rate[p])
